@@ -55,12 +55,19 @@ def starKey : PKey → Option String
 
 def joinPath (comps : List String) : String :=
   let ret := "/".intercalate comps
-  if ret.startsWith "/" then ret else "/" ++ ret
+  if ret.toList.head? == some '/' then ret else "/" ++ ret
 
 /-- `star_path(path)` -/
 def starPath (p : List PKey) : String := joinPath (p.filterMap starKey)
 
-def splitPath (k : String) : List String := (k.splitOn "/").filter (· != "")
+/-- split on '/', dropping empty parts; `cur` is the current part, reversed -/
+def splitOnSlash : List Char → List Char → List String
+  | [], cur => if cur.isEmpty then [] else [String.ofList cur.reverse]
+  | c :: rest, cur =>
+      if c == '/' then (if cur.isEmpty then [] else [String.ofList cur.reverse]) ++ splitOnSlash rest []
+      else splitOnSlash rest (c :: cur)
+
+def splitPath (k : String) : List String := splitOnSlash k.toList []
 
 structure Strategies where
   table : List (String × String)
